@@ -46,8 +46,9 @@
      TruncatedFramingCleanEof, Stuck, Livelock, TooManySteps (progress), MaxSizeReturnedMore,
      MaxSizeAccumulated, Spurious413,
    and two separately named deviations of the code as found:
-     StalePauseStuck / StalePauseLost
-                                hang / spurious error with lost data after the stale
+     StalePauseStuck / StalePauseLost / StalePauseResident
+                                hang / spurious error with lost data / one extra decoder call beyond
+                                the bound (EOF overtakes held-back input) after the stale
                                 HttpPayloadParser._paused flag was observed (st = 1)
      TruncatedStreamCleanEof    a coded stream that stops before its end marker (gzip / br / zstd)
                                 with intact HTTP framing ends in a clean EOF                    *)
@@ -142,8 +143,10 @@ TNext ==
     /\ LET e == Events(tid)[l + 1]
            b00 == EvBad(e)
            \* a spurious error / missing end after the stale pause flag was seen is named after it
-           b0 == IF stale /\ b00 \in {"SpuriousError", "Stuck", "WrongErrorKind"}
-                 THEN (IF b00 = "Stuck" THEN "StalePauseStuck" ELSE "StalePauseLost") ELSE b00
+           b0 == IF stale /\ b00 \in {"SpuriousError", "Stuck", "WrongErrorKind", "Resident"}
+                 THEN (IF b00 = "Stuck" THEN "StalePauseStuck"
+                       ELSE IF b00 = "Resident" THEN "StalePauseResident" ELSE "StalePauseLost")
+                 ELSE b00
            b == IF b0 = "" /\ l + 1 = NEvents(tid) /\ e.ev # "end" THEN "NoEndEvent" ELSE b0
            l2 == IF b = "" THEN l + 1 ELSE l
        IN /\ bad' = b
